@@ -30,9 +30,10 @@ POOLS = {
     'intstr': lambda n: n if n % 2 == 0 else 'v%d' % n,
     'blank': lambda n: ['north  gate %d', ' [%d]  ', '%d ,  x', '{ %d :  y }'][n % 4] % n,      # runs of blanks, brackets
     'twin':  lambda n: (n if n % 2 == 0 else str(n - 1)),      # u0 = 0 and u1 = '0': different names with one str()
+    'falsy0': lambda n: ([0, '', ()][n] if n < 3 else n),      # the points u0, u1, u2 are called 0, '' and ()
     'falsy': lambda n: (n + 1 if n < 10 else (['', 0, ()][n - 10] if n < 13 else n)),   # u10, u11, u12 are falsy names
 }
-POOL_NAMES = ['int', 'str', 'tuple', 'float', 'neg', 'mixed', 'falsy']
+POOL_NAMES = ['int', 'str', 'tuple', 'float', 'neg', 'mixed', 'falsy', 'falsy0']
 
 
 class Names:
